@@ -15,6 +15,9 @@ the decoders behind the carry-over (they receive identical arguments).
 import Osmium.Lemmas.ChunksOpl
 import Osmium.Lemmas.ChunksPbf
 import Osmium.Lemmas.ChunksO5m
+import Osmium.Lemmas.ChunksFast
+import Osmium.Lemmas.ChunksLong
+import Osmium.Generated.C06Exits
 
 namespace Osmium.Chunks.C06
 
@@ -148,6 +151,72 @@ theorem xml_feed_bytes (cs : List Bytes) (hne : NonEmptyChunks cs) :
     ((xmlFeed cs).map Prod.fst).flatten = cs.flatten := by
   rw [xml_feed cs hne]; simp [List.map_map, Function.comp_def]
 
+/-! ### long records: no size-dependent behaviour in the carry-over
+
+The theorems above have no bound on the length of a line / blob / dataset or on the number of
+pieces it is spread over; the statements below make that explicit and are what the long-record
+streams of tools/props/c06.py (lines of 64 KiB … 4 MiB in pieces of 7 bytes … 1 MiB) exercise. -/
+
+/-- Every segmentation gives the result of the one-piece run (what the monitor of the check
+    tests on the implementation, proved for the model). -/
+theorem opl_equals_one_piece (cs : List Bytes) (hne : NonEmptyChunks cs) (hn : NoNul cs.flatten)
+    (h0 : cs.flatten ≠ []) : lineByLine cs = lineByLine [cs.flatten] := by
+  refine opl_chunking_irrelevant cs [cs.flatten] hne ?_ hn (by simp)
+  intro c hc
+  simp only [List.mem_singleton] at hc
+  subst hc
+  exact h0
+
+/-- A line `l` of ANY length (no bound), anywhere in the input (after `pre` + line end, before
+    line end + `post`), is handed to `parse_line` intact and exactly once, between the lines of
+    `pre` and the lines of `post`, whatever the chunking — there is no length-dependent outcome
+    ("line too long") on any carry-over path. -/
+theorem opl_line_of_any_length (cs : List Bytes) (hne : NonEmptyChunks cs) (hn : NoNul cs.flatten)
+    (pre l post : Bytes) (x y : UInt8) (hx : isBreak x = true) (hy : isBreak y = true)
+    (hflat : cs.flatten = pre ++ x :: (l ++ y :: post)) (hl : l ≠ []) (hnb : ∀ b ∈ l, isBreak b = false) :
+    lineByLine cs = specLines pre ++ l :: specLines post := by
+  rw [opl_chunking cs hne hn, hflat, specLines_break pre _ x hx, specLines_break l post y hy,
+    specLines_single l hl hnb]
+  simp
+
+/-- …and the hypotheses are satisfiable for every line length and every piece size: a line of
+    `n + 1` bytes cut into pieces of `k + 1` bytes (so spanning `⌈(n + 2) / (k + 1)⌉` pieces: one
+    byte per piece for `k = 0`) comes out as that one line. -/
+theorem opl_long_line_fixed_pieces (l : Bytes) (k : Nat) (hl : l ≠ []) (hnb : ∀ b ∈ l, isBreak b = false)
+    (hn : NoNul l) :
+    lineByLine (piecesOf k (l.length + 1) (l ++ [10])) = [l] ∧
+    (piecesOf k (l.length + 1) (l ++ [10])).length = (l.length + 1 + k) / (k + 1) := by
+  have hfl := piecesOf_flatten k (l.length + 1) (l ++ [10]) (by simp)
+  constructor
+  · rw [opl_chunking _ (piecesOf_nonEmpty k _ _) (by
+      rw [hfl]
+      exact noNul_append hn (by intro b hb; simp at hb; subst hb; decide))]
+    rw [hfl, specLines_break l [] 10 (by decide), specLines_single l hl hnb]
+    simp [specLines, segs]
+  · have := piecesOf_length k (l.length + 1) (l ++ [10]) (by simp)
+    simpa using this
+
+/-- Static tie for what no stream of ordinary inputs can see: the CURRENT source of the carry-over
+    functions (`line_by_line`, the PBFParser input-buffer functions, `O5mParser::ensure_bytes_available`,
+    `XMLParser::run`; table regenerated on every run) has exactly the ways out the models have — no
+    `throw` in `line_by_line` / the o5m window / the XML feed, the four PBF errors, no named limit
+    besides the two PBF size limits (parameters of the model) and no numeric constant other than
+    0 and 1, i.e. no size threshold. -/
+theorem carry_over_exits_modelled :
+    Osmium.Generated.C06Exits.throwSites = modelledThrows ∧
+    Osmium.Generated.C06Exits.limits = modelledLimits ∧
+    Osmium.Generated.C06Exits.constants = [] := by decide
+
+/-! ### the linear-time twins run by the model driver are the specified functions -/
+
+theorem lineByLineF_eq (cs : List Bytes) : lineByLineF cs = lineByLine cs := lineByLineF_eq_lineByLine cs
+
+theorem pbfFramesF_eq (maxHeader maxBlob : Nat) (blobSize : Bool → Bytes → Option Nat) (cs : List Bytes) :
+    pbfFramesF maxHeader maxBlob blobSize cs = pbfFrames maxHeader maxBlob blobSize cs :=
+  pbfFramesF_eq_pbfFrames maxHeader maxBlob blobSize cs
+
+theorem o5m_ensureF_eq (o : O5mIn) (need : Nat) : o.ensureF need = o.ensure need := ensureF_o5m_eq o need
+
 /-! ### non-vacuity -/
 
 example : NonEmptyChunks [[110, 49], [10, 110], [50, 10]] ∧ NoNul ([[110, 49], [10, 110], [50, 10]] : List Bytes).flatten := by
@@ -157,6 +226,14 @@ example : NonEmptyChunks [[110, 49], [10, 110], [50, 10]] ∧ NoNul ([[110, 49],
 
 example : lineByLine [[110, 49], [10, 110], [50, 10]] = [[110, 49], [110, 50]] := by decide
 example : lineByLine [[110, 49, 10, 110, 50, 10]] = [[110, 49], [110, 50]] := by decide
+-- one line spread over 5 pieces (3 of them lie completely inside the line), 3 pieces, 1 piece
+example : lineByLine [[110], [49, 32], [118], [50, 32, 100], [86, 10, 110, 50, 10]] = [[110, 49, 32, 118, 50, 32, 100, 86], [110, 50]] := by decide
+example : lineByLineF [[110], [49, 32], [118], [50, 32, 100], [86, 10, 110, 50, 10]] = [[110, 49, 32, 118, 50, 32, 100, 86], [110, 50]] := by decide
+example : lineByLine (piecesOf 2 9 [110, 49, 32, 118, 50, 32, 100, 86, 10]) = [[110, 49, 32, 118, 50, 32, 100, 86]] := by decide
+example : piecesOf 2 9 [110, 49, 32, 118, 50, 32, 100, 86, 10] = [[110, 49, 32], [118, 50, 32], [100, 86, 10]] := by decide
+-- hypotheses of opl_line_of_any_length on a chunking that cuts inside `pre`, `l` (twice) and `post`
+example : ([[110, 49, 10, 119], [50], [32, 78], [110, 49, 13, 110], [51]] : List Bytes).flatten
+    = [110, 49] ++ 10 :: ([119, 50, 32, 78, 110, 49] ++ 13 :: [110, 51]) := by decide
 -- the one-node o5m file of finding F6, whole and cut in two
 example : o5mRun [[0xff, 0xe0, 0x04, 0x6f, 0x35, 0x6d, 0x32, 0x10, 0x07, 0x02, 0x00, 0x80, 0x80, 0x02, 0x80, 0x02, 0xfe]]
     = ([.data 0x10 [0x02, 0x00, 0x80, 0x80, 0x02, 0x80, 0x02], .other 0xfe], none) := by decide
